@@ -38,7 +38,7 @@ def dispatch_rows(c):
     if f is None:
         return [], None
     T.set_crate(c)
-    rows = [r for r in T.extract(f, calls=True) if r["op"].startswith("call ") and "query" in r["op"].split("(")[0].split("::")[-1]]
+    rows = [r for r in T.extract(f, calls=True, rename=False) if r["op"].startswith("call ") and "query" in r["op"].split("(")[0].split("::")[-1]]
     return rows, f
 
 
